@@ -273,6 +273,14 @@ theorem c19_x_api_handler :
       "Error: nil", "Explain: nil"] ∧
     makeProtoDocsLoop = ["for range qpr.IDs", "doc.Id = id.ID.String()", "respDocs[i] = doc"] := by decide
 
+/-- the handler's `StartAsyncSearch` hands the converted request on unchanged: the aggregation queries are exactly what
+`convertAggsQuery` made of the request (the same conversion `ComplexSearch` uses), the histogram interval is the parsed
+duration in milliseconds, window and order as given -/
+theorem c19_x_api_start :
+    asyncStartRequest = ["Query: r.GetQuery().GetQuery()", "From: r.GetQuery().From.AsTime()", "To: r.GetQuery().To.AsTime()",
+      "Order: r.Order.MustDocsOrder()", "Aggregations: aggs", "HistogramInterval: seq.MID(histInterval.Milliseconds())"] ∧
+    asyncStartAggWrites = [] := by decide
+
 /-- the source contains the repaired `makeProtoDocs` (every `docs.Next()` guarded by `docs != nil`): the model
 `handlerFetch true ..` of `c19_api_docs_one_per_id` is the code -/
 theorem c19_x_api_docs_nil_safe : makeProtoDocsNilSafe = true := by decide
